@@ -275,3 +275,56 @@ func VH_C11_IgnoreMissingScope() {
 		}
 	}
 }
+
+// ---- C11.leak: nothing an included template writes reaches the includer, wherever it writes it ---------
+
+var vhC11Writers = []string{
+	"{% set v = 'L' %}",
+	"{% if c %}{% set v = 'L' %}{% endif %}",
+	"{% if not c %}n{% else %}{% set v = 'L' %}{% endif %}",
+	"{% if not c %}n{% elseif c %}{% set v = 'L' %}{% endif %}",
+	"{% for i in [1] %}{% set v = 'L' %}{% endfor %}",
+	"{% for i in [] %}{% else %}{% set v = 'L' %}{% endfor %}",
+	"{% for i in xs %}x{% else %}{% set v = 'L' %}{% endfor %}",
+	"{% for i in xs %}{% for i in [] %}{% else %}{% set v = 'L' %}{% endfor %}{% else %}{% set v = 'M' %}{% endfor %}",
+	"{% block b %}{% set v = 'L' %}{% endblock %}",
+	"{% apply upper %}{% set v = 'L' %}{% endapply %}",
+	"{% spaceless %}{% set v = 'L' %}{% endspaceless %}",
+	"{% include 'setter' %}",
+	"{% macro mm() %}M{% endmacro %}",
+	"{% for i in [] %}{% else %}{% import 'lib' as mm %}{% endfor %}",
+	"{% if c %}{% from 'lib' import m as mm %}{% endif %}",
+	"{% for i in xs %}{% else %}{% macro mm() %}M{% endmacro %}{% endfor %}",
+	"{% for i in [1, 2] %}{{ i }}{% endfor %}",
+	"{% for i, v in {'k': 1} %}{{ i }}{% endfor %}",
+}
+
+// VH_C11_Leak: an included template whose only write (set, loop variable, macro definition, import,
+// from-import) stands in one particular place (top level, if / else / elseif arm, for body, for-else
+// of an empty or non-empty loop, block, apply, spaceless, nested include); included plainly, in a loop,
+// with ignore missing, with an unrelated with-clause. The includer's probe reads the same after as before.
+func VH_C11_Leak() {
+	w := symChoice(len(vhC11Writers))
+	symTag("writer:" + vhC11Writers[w])
+	form := []string{"{% include 'part' %}", "{% for q in [1, 2] %}{% include 'part' %}{% endfor %}", "{% include 'part' ignore missing %}", "{% include 'part' with {'other': 1} %}", "{% if c %}{% include 'part' %}{% endif %}"}[symChoice(5)]
+	nx := symChoice(2)
+	xs := make([]interface{}, nx)
+	for i := range xs {
+		xs[i] = "e"
+	}
+	probe := "<v={{ v }};i={{ i }};mm={% if mm is defined %}D{% endif %};l={% if loop is defined %}D{% endif %}>"
+	e := New()
+	e.RegisterString("lib", "{% macro m() %}M{% endmacro %}")
+	e.RegisterString("setter", "{% set v = 'S' %}")
+	e.RegisterString("part", vhC11Writers[w])
+	if e.RegisterString("main", probe+"|"+form+"|"+probe) != nil {
+		symAssert(false, "template-parses")
+		return
+	}
+	v := symStringIn(1, "ab")
+	out, err := e.Render("main", map[string]interface{}{"v": v, "c": true, "xs": xs})
+	symCover("rendered")
+	symAssert(err == nil, "renders")
+	p := "<v=" + v + ";i=;mm=;l=>"
+	symAssert(len(out) >= 2*len(p) && out[:len(p)] == p && out[len(out)-len(p):] == p, "includer-state-unchanged")
+}
